@@ -103,8 +103,14 @@ def gen(rng, tier):
         ops.append("target " + hx(rng.choice([target(rng), target(rng).rstrip(b"/"), b"/", b"#/", b"", b"/".join([b"x"] * rng.choice([22, 23, 24])) + b"/"])))
     contract, sign = rng.getrandbits(32), rng.getrandbits(32)
     specs = ["x:" + hx(rbytes(rng, 16)), "s:%s:%s" % (hx(rbytes(rng, 32)), hx(rbytes(rng, 24))), "h:%s:%s" % (hx(rbytes(rng, 32)), hx(rbytes(rng, 16)))]
+    # small scope, exhaustive in every run: every (target, request) pair over {a, b, +, #} up to depth 2
+    small = [b"a/", b"b/", b"+/", b"#/", b"a/b/", b"a/+/", b"+/b/", b"+/+/", b"a/#/", b"+/#/", b"a/a/"]
+    smallreq = small + [b"a/b/#/", b"a/+/#/", b"b/a/", b"a/b/a/"]
     for spec in specs:
         ops.append("reset %s %d %d" % (spec, contract, sign))
+        for t in small:
+            for rq in smallreq:
+                ops.append("authz %d 1 %d %d %d %s 0 0 %s %d" % (rng.getrandbits(15), contract, sign, 254, hx(t), hx(rq), rng.choice(OPS)))
         for i in range(n):
             t = target(rng)
             perms = rng.choice(PERMS) if rng.randrange(3) else rng.getrandbits(8)
